@@ -34,7 +34,7 @@ CHECKS = {
         design_ref='6/C18'),
     'C12': dict(
         engine='ServerStop',
-        technique='TLA+ spec ServerStop.tla (parent-side terminate(timeout=5, force) with its join time-out, the SIGTERM handler that kills `children` but not the contexts, the `finally` loop with its 1 s waits and forced kills, the context helper\'s own clean-up racing with the server\'s 1 s join, a worker start-up in progress) model-checked with TLC over every configuration of 0-4 children in 11 states x {terminate, SIGTERM, terminate with a short time-out whose SIGTERM lands inside the finally loop} x 4 start-up phases; TLC-enumerated configurations are built on a real server and stopped; /proc is scanned for former descendants (found by an environment tag, so re-parented orphans count) and the parent-side accessors are read with hang bounds; TLC judges every real execution (ServerJudge) and the real outcome is compared with the model outcome',
+        technique='TLA+ spec ServerStop.tla (parent-side terminate(timeout=5, force) with its join time-out, the SIGTERM handler that kills `children` but not the contexts, the `finally` loop with its 1 s waits and forced kills, the context helper\'s own clean-up racing with the server\'s 1 s join, a worker start-up in progress) model-checked with TLC over every configuration of 0-4 children in 11 states x {terminate, SIGTERM, terminate with a short time-out whose SIGTERM lands inside the finally loop, graceful-only terminate(force=False)} x 4 start-up phases; TLC-enumerated configurations are built on a real server and stopped; /proc is scanned for former descendants (found by an environment tag, so re-parented orphans count) and the parent-side accessors are read with hang bounds; TLC judges every real execution (ServerJudge) and the real outcome is compared with the model outcome',
         text='Exhaustive TLC model checking (invariants Reaped / ParentsKnow / ErrorKind / NoParentBlock at every terminal state over all 75k configurations and all interleavings of time-outs, kills and clean-ups; liveness Reaped for <= 3 children) of the proposed algorithm; the algorithm as written is rejected (a context helper killed in the middle of its clean-up). 26 (300) configurations chosen from TLC\'s enumeration for balanced coverage are built on real servers, stopped with terminate() or SIGTERM (also while a scripted client is in the middle of the handshake), and observed: server gone, no former descendant left 3 s later, wait()/is_alive()/has_error/error of every parent-side worker with hang bounds.',
         note='Trusted: TLC, /proc, the time abstraction of the model (a cooperative process that got the termination request exits before a 1 s time-out fires; the parent\'s 5 s join expires after 4 waited-out processes). The parent side of a start-up that races with the stop belongs to C20: the racing worker is a scripted client and only its reaping is judged. Real configurations are a selected sample of the enumerated space.',
         design_ref='6/C12'),
@@ -945,7 +945,10 @@ def c12_select(confs, k, rng):
     for must, times in ((('inctx-swallow', 'terminate'), 1), (('orphan+racer', 'addr', 'terminate'), 1), (('two-swallow-in-ctx', 'terminate'), 1),
                         ('tshort-mix', 2), ('tshort-swallow-first', 2), (('swallow', 'tshort'), 3),
                         (('swallow-gone', 'terminate'), 2), (('client-gone-mix', 'terminate'), 1), (('coop-gone', 'terminate'), 1),
-                        (('swallow-t', 'terminate'), 2), (('swallow-t', 'sigterm'), 2), (('swallow-t', 'tshort'), 1)):
+                        (('swallow-t', 'terminate'), 2), (('swallow-t', 'sigterm'), 2), (('swallow-t', 'tshort'), 1),
+                        # a registered context + a refused duplicate registration before the stop, under every stop kind (the
+                        # graceful-only terminate is the one nobody rescues from a hanging exit)
+                        (('orphan', 'tgrace'), 3), (('orphan', 'terminate'), 2), (('orphan', 'sigterm'), 1), (('orphan+racer', 'addr', 'terminate'), 1)):
         for i, f in enumerate(fs):
             if count[must] >= times:
                 break
@@ -994,7 +997,7 @@ def run_c12(tier, replay):
 
     # 0. the design (concurrently): exhaustive invariants for 0..4 children, liveness for 0..3, witnesses,
     #    rejection of the algorithm as written
-    wit = ['W_NoKillHelper', 'W_NoJoinTimeout', 'W_NoHalfStarted', 'W_NoGracefulCtx', 'W_NoForced', 'W_NoExitHang', 'W_NoSignalUsedUp', 'W_NoHandlerInLoop']
+    wit = ['W_NoGracefulExit', 'W_NoKillHelper', 'W_NoJoinTimeout', 'W_NoHalfStarted', 'W_NoGracefulCtx', 'W_NoForced', 'W_NoExitHang', 'W_NoSignalUsedUp', 'W_NoHandlerInLoop']
     design = Jobs()
     if tier == 'thorough':
         design.start('mc', lambda: tlc.run('ServerStopMC', 'ServerStop_mc.cfg', workers=8, name='stopmc', timeout=3000))
@@ -1006,7 +1009,7 @@ def run_c12(tier, replay):
                                              must_complete=False, timeout=600) for w in wit})
     design.start('prefix', lambda: {v: tlc.run('ServerStopMC', cfg_text=_stop_cfg(2, 'Racers_all', v[0], inv=C12_INV, prop='Live_Reaped', dupterm=v[1], pkill=v[2]),
                                                workers=1, name='stopprefix%s%s%s' % v, must_complete=False, timeout=600)
-                                    for v in (('FALSE', 'FALSE', 'FALSE'), ('FALSE', 'TRUE', 'TRUE'), ('TRUE', 'FALSE', 'FALSE'))})
+                                    for v in (('FALSE', 'FALSE', 'FALSE'), ('FALSE', 'TRUE', 'TRUE'), ('TRUE', 'FALSE', 'FALSE'), ('TRUE', 'FALSE', 'TRUE'))})
     design.start('cachedead', lambda: tlc.run('ServerStopMC', cfg_text=_stop_cfg(1, 'Racers_none', 'TRUE', inv=C12_INV, prop='Live_Reaped', cachedead='TRUE'),
                                               workers=1, name='stopcachedead', must_complete=False, timeout=600))
     design.start('noack', lambda: tlc.run('ServerStopMC', cfg_text=_stop_cfg(1, 'Racers_all', 'TRUE', inv=C12_INV, prop='Live_Reaped', noack='TRUE'),
@@ -1054,10 +1057,10 @@ def run_c12(tier, replay):
     # 2. collect the design runs
     dres = design.wait()
     r = dres['mc']
-    ev.add_tlc('exhaustive: 0..%d children x 11 states x {terminate, sigterm, tshort} x 4 start-up phases (proposed algorithm)' % (4 if tier == 'thorough' else 3), r)
+    ev.add_tlc('exhaustive: 0..%d children x 11 states x {terminate, sigterm, tshort, tgrace} x 4 start-up phases (proposed algorithm)' % (4 if tier == 'thorough' else 3), r)
     if tier != 'thorough':
         r4 = dres['mc4']
-        ev.add_tlc('exhaustive: 0..4 children x 11 states x {terminate, sigterm, tshort}, no racing start-up (proposed algorithm)', r4)
+        ev.add_tlc('exhaustive: 0..4 children x 11 states x {terminate, sigterm, tshort, tgrace}, no racing start-up (proposed algorithm)', r4)
         if r4.error:
             raise MachineryError('ServerStop.tla violates its own properties: %s\n%s' % (r4.error, '\n'.join(r4.trace[:80])))
     if r.error:
